@@ -2763,6 +2763,8 @@ def sensor_acc(m: Model, d: Data):
 
   # apply sensor delay/interval for acceleration sensors
   history.apply_sensor_delay(m, d, m.sensor_acc_adr)
+  history.apply_sensor_delay(m, d, m.sensor_touch_adr)
+  history.apply_sensor_delay(m, d, m.sensor_tendonactfrc_adr)
   history.apply_sensor_delay(m, d, m.sensor_limitfrc_adr)
 
   if m.callback.sensor:
